@@ -458,7 +458,7 @@ def run(rep, model, tier, seed):
     rep.rule = rep.rule % nmax
     plan = ([1, 2, 3, 4, 6, 6, 7, 7, 7, 7] if tier == "quick" else
             [1, 2, 3, 4, 5] * 4 + [6, 7, 8] * 14 + [9, 10, 11, 12] * 5)
-    broke = False
+    broke = any(not d["key"] for d in rep.disagreements)      # (the sequential lease section above)
     for i, n in enumerate(plan):
         before = len(rep.disagreements)
         v = run_scenario(rep, model, Scenario(common.rng(seed, "c17/%s/%d" % (tier, i)), n, tier), "random")
@@ -467,7 +467,8 @@ def run(rep, model, tier, seed):
         # the model no longer reproduces the code: look for a run on which the property itself fails
         for i in range(40):
             n = [6, 7, 8, 9, 7, 8][i % 6]
-            if run_scenario(rep, model, Scenario(common.rng(seed, "c17/hunt/%d" % i), n, tier, storm=True), "hunt"):
+            v = run_scenario(rep, model, Scenario(common.rng(seed, "c17/hunt/%d" % i), n, tier, storm=True), "hunt")
+            if v and v[0] != KNOWN_ACKWAIT:      # (the recorded finding is not what the hunt is looking for)
                 break
     rep.extra["also_sampled_only"] = True
 
